@@ -71,6 +71,49 @@ endmodule
 .end
 ''',
 }
+TINY['hier.edf'] = '''(edif hier (edifVersion 2 0 0) (edifLevel 0) (keywordMap (keywordLevel 0))
+ (library prims (edifLevel 0) (technology (numberDefinition))
+  (cell INV (cellType GENERIC) (view netlist (viewType NETLIST)
+   (interface (port I (direction INPUT)) (port O (direction OUTPUT))))))
+ (library work (edifLevel 0) (technology (numberDefinition))
+  (cell sub (cellType GENERIC) (view netlist (viewType NETLIST)
+   (interface (port I (direction INPUT)) (port O (direction OUTPUT)))
+   (contents
+    (instance inner (viewRef netlist (cellRef INV (libraryRef prims))))
+    (instance spare (viewRef netlist (cellRef INV (libraryRef prims))))
+    (net I (joined (portRef I) (portRef I (instanceRef inner)))))))
+  (cell top (cellType GENERIC) (view netlist (viewType NETLIST)
+   (interface (port a (direction INPUT)) (port y (direction OUTPUT)))
+   (contents
+    (instance u_sub (viewRef netlist (cellRef sub)))
+    (instance u1 (viewRef netlist (cellRef INV (libraryRef prims))))
+    (net a (joined (portRef a) (portRef I (instanceRef u_sub)) (portRef I (instanceRef u1))))
+    (net y (joined (portRef y) (portRef O (instanceRef u_sub))))
+    (net n (joined (portRef O (instanceRef u1))))))))
+ (design top (cellRef top (libraryRef work))))
+'''
+TINY['chain.v'] = '''module a();
+endmodule
+
+module b();
+  wire w;
+  leaf u1();
+endmodule
+
+module c();
+  b u2();
+  d u4();
+endmodule
+
+module d();
+  a u3();
+endmodule
+
+module e();
+  c u5();
+  a u6();
+endmodule
+'''
 GOOD = {'edf': 'tiny.edf', 'v': 'tiny.v', 'eblif': 'tiny.eblif'}
 
 TOK = {
@@ -130,6 +173,19 @@ def mutations(name, text, seed, tier):
                 r = 'zz'
             yield {'kind': 'replace', 'index': i, 'with': r, 'text': text[:a] + r + text[b:]}
     yield {'kind': 'truncate', 'index': T, 'text': text.rstrip()}     # complete text without the final newline
+    if fmt == 'v':
+        # every instantiation re-targeted to every other module declared in the file (cyclic hierarchies, use-before-declaration, ...)
+        ident = re.compile(r'^(\\\S+|[A-Za-z_$][\w$]*)$')
+        KW = {'module', 'endmodule', 'input', 'output', 'inout', 'wire', 'reg', 'assign', 'parameter', 'localparam', 'tri', 'supply0', 'supply1'}
+        declared = [toks[i + 1][0] for i in range(T - 1) if toks[i][0] == 'module' and ident.match(toks[i + 1][0])]
+        for i in range(T - 2):
+            t = toks[i][0]
+            if ident.match(t) and t not in KW and ident.match(toks[i + 1][0]) and toks[i + 1][0] not in KW and toks[i + 2][0] == '(' \
+                    and (i == 0 or toks[i - 1][0] in (';', 'endmodule', '*)')):
+                a, b = toks[i][1], toks[i][2]
+                for m in declared:
+                    if m != t:
+                        yield {'kind': 'retarget-instance', 'index': i, 'with': m, 'text': text[:a] + m + text[b:]}
     if fmt == 'edf':
         low = [t.lower() for t, _, _ in toks]
         for i, t in enumerate(low):
@@ -141,6 +197,27 @@ def mutations(name, text, seed, tier):
                     continue
                 a, b = toks[j][1], toks[j][2]
                 yield {'kind': 'dangling-' + toks[i][0], 'index': j, 'with': UNDECLARED, 'text': text[:a] + UNDECLARED + text[b:]}
+        # an instanceRef that names an instance declared only in ANOTHER cell (a grand-child, a sibling cell's content) is just as undeclared
+        insts_of = {}
+        cur_cell = None
+        where = {}
+        def name_at0(k):
+            if k < T and toks[k][0] == '(' and k + 2 < T and low[k + 1] == 'rename':
+                return toks[k + 2][0]
+            return toks[k][0] if k < T else None
+        for i, t in enumerate(low):
+            if t == 'cell' and i > 0 and toks[i - 1][0] == '(':
+                cur_cell = (name_at0(i + 1) or '').lower(); insts_of.setdefault(cur_cell, set())
+            if t == 'instance' and i > 0 and toks[i - 1][0] == '(' and cur_cell is not None:
+                insts_of[cur_cell].add(name_at0(i + 1) or '')
+            where[i] = cur_cell
+        for i, t in enumerate(low):
+            if t == 'instanceref' and i + 1 < T and toks[i + 1][0] not in '()':
+                here = insts_of.get(where.get(i), set())
+                a, b = toks[i + 1][1], toks[i + 1][2]
+                others = sorted(set(x for c_, xs in insts_of.items() if c_ != where.get(i) for x in xs) - here)
+                for iname in others[:4]:
+                    yield {'kind': 'dangling-instanceRef', 'index': i + 1, 'with': iname, 'text': text[:a] + iname + text[b:]}
         # a cellRef that names a cell declared only in ANOTHER library than the one its libraryRef gives is just as undeclared
         cells_of = {}
         cur = None
@@ -436,6 +513,22 @@ def main():
                         cases.append({'id': len(cases), 'file': name, 'fmt': fmt, 'kind': m['kind'], 'index': m['index'], 'with': m.get('with'),
                                       'text': m['text'], 'prior': pr})
         results = run_cases(cases, int(cfg.get('workers', 16)), fresh, root)
+        # a time-out on a loaded machine is not a hang: every case that did not answer is run again, alone, with a six-fold limit,
+        # and only the second verdict counts
+        global LIMIT_S
+        slow = [c for c in cases if results.get(c['id'], {}).get('outcome') in ('hang', 'crash')]
+        if slow:
+            first_limit = LIMIT_S
+            LIMIT_S = first_limit * 6
+            try:
+                again = run_cases(slow[:12], 1, fresh, root)
+            finally:
+                LIMIT_S = first_limit
+            for c in slow[:12]:
+                if c['id'] in again:
+                    if again[c['id']]['outcome'] not in ('hang', 'crash'):
+                        out.setdefault('slow_but_terminating', 0); out['slow_but_terminating'] += 1
+                    results[c['id']] = again[c['id']]
         seen = set()
         hashes = set()
         base_text = {n: t for n, t in corpus()} if not cfg.get('replay') else {}
@@ -450,7 +543,7 @@ def main():
             out['outcomes'][key] = out['outcomes'].get(key, 0) + 1
             probs = list(r['problems'])
             if r['outcome'] == 'hang':
-                probs.append(('hang', 'hard' if r.get('hard') else 'parse', 'sdn.parse did not return within %d s' % LIMIT_S))
+                probs.append(('hang', 'hard' if r.get('hard') else 'parse', 'sdn.parse did not return within %d s (confirmed alone with %d s)' % (LIMIT_S, LIMIT_S * 6)))
             if r['outcome'] == 'crash':
                 probs.append(('crash', 'child', 'the child process died while parsing'))
             if c['kind'].startswith('dangling') and r['outcome'] == 'netlist':
